@@ -7,7 +7,7 @@ props = [json.loads(l)['id'] for l in open(os.path.join(root, 'properties.jsonl'
 
 CHECKS = {
  'C01': dict(level='model_checking', technique='explicit-state BFS over mutation sequences on the real AppMutator + SQLite, differential oracle vs Django-created schema',
-   text='Every mutation sequence up to the stated depth over the enabled-mutation alphabet, from every start spec of families S1/S2/S3, is executed through the real AppMutator/SQLExecutor against in-memory SQLite with a DatabaseState scanned from the real database; after every transition the introspected schema must equal the schema Django itself creates for the reference-evolved models. Exhaustive within the bounds; right level because the property is universally quantified over programs.',
+   text='Every mutation sequence up to the stated depth over the enabled-mutation alphabet, from every start spec of families S1/S2/S3, is executed through the real AppMutator/SQLExecutor against in-memory SQLite with a DatabaseState scanned from the real database; after every transition the introspected schema must equal the schema Django itself creates for the reference-evolved models. Hinted programs: for every depth-1 successor, every two-step successor whose second step goes to another model, and every field moved between two models, the evolution hinted by Diff is executed as ONE batch and judged the same way (a batch whose result misses the target although the same mutations applied one at a time reach it is a violation). Exhaustive within the bounds; right level because the property is universally quantified over programs.',
    note='Trusts Django 4.2 schema editor as "created from scratch", SQLite PRAGMA introspection, and the reference semantics only as far as the per-step signature agreement check forces it. Names of indexes/constraints and column order are not compared. Children of violating transitions are not expanded.',
    design='3/C01'),
  'C02': dict(level='model_checking', technique='explicit-state BFS over mutation sequences on populated databases; reference row semantics checked after every transition',
@@ -15,15 +15,15 @@ CHECKS = {
    note='Row contents are fixed profiles, not an enumerated space. Expected stored form of an initial is what Django stores for the field type. Batched multi-mutation evolutions are covered by C03 (batched rows == stepwise rows) composed with this single-step oracle.',
    design='3/C02'),
  'C03': dict(level='model_checking', technique='exhaustive path enumeration (stateless, no dedup) over mutation sequences; each path run 4-5 ways on the real AppMutator/Evolver; violating paths delta-minimised',
-   text='Every reference-valid mutation sequence up to length 3 (quick) / 4 (thorough) over the narrow alphabet, and length 2/3 over the full two-model alphabet, is executed stepwise (reference), batched through one AppMutator, batched again with the same objects, and through the real Evolver task pipeline (prepare then _build_batches); final signature (Diff-empty both ways), schema dump and row dump must agree and the mutation definitions must be unaltered.',
+   text='Every reference-valid mutation sequence up to length 3 (quick) / 4 (thorough) over the narrow alphabet, length 2/3 over the full two-model, three-field and indexed (unique/db_index present from the start) alphabets, and length 4 (quick) / 5 (thorough) over a tiny alphabet in which freed field names are re-used, is executed stepwise (reference), batched through one AppMutator, batched again with the same objects, and through the real Evolver task pipeline (prepare then _build_batches); final signature (Diff-empty both ways), schema dump and row dump must agree and the mutation definitions must be unaltered.',
    note='Stepwise execution (W1) defines the outcome; paths whose W1 run fails or differs from a fresh creation are outside the domain (C01). Random length-12 sequences of the property text are sampling and are not done.',
    design='3/C03'),
  'C10': dict(level='model_checking', technique='exhaustive enumeration of hand-over configurations (evolutions x on-disk migration chain x mark_applied prefix x start state x neighbour x driver) through the real Evolver/commands, order observed from signals',
-   text='Generated app with k evolutions followed by MoveToDjangoMigrations(mark_applied=S) and a real on-disk chain of m migrations, S every prefix, start states {empty database, database at V0, at each earlier evolution}, alone and next to an evolution-only app, through D2/D3/D4: evolution SQL must precede the app migrations, marked migrations are recorded once and not executed, the rest execute once in dependency order, the stored applied_migrations equal the django_migrations rows, upgrade_method is migrations, schema equals a fresh creation for consistent S, and a further run offers no hint, needs nothing and executes no SQL.',
+   text='Generated app with k evolutions followed by MoveToDjangoMigrations(mark_applied=S) and a real on-disk chain of m migrations, S every prefix, start states {empty database, database at V0, at each earlier evolution}, alone and next to an evolution-only app, with the app label equal to or different from its package name, through D2/D3/D4: evolution SQL must precede the app migrations, marked migrations are recorded once and not executed, the rest execute once in dependency order, the stored applied_migrations equal the django_migrations rows, upgrade_method is migrations, schema equals a fresh creation for consistent S, and a further run offers no hint, needs nothing and executes no SQL.',
    note='mark_applied is consistent iff it names the migrations the evolutions cover; under-marked configurations are expected to fail with a duplicate column and are only counted.',
    design='3/C10'),
  'C11': dict(level='model_checking', technique='explicit-state BFS over rename/delete mutation sequences; invariant on the simulated signature and on PRAGMA foreign_key_list/foreign_key_check of the real database',
-   text='From every S2/S3 start (cross-model and cross-app FK/O2O/M2M, prefix model names, single-character app label) all sequences up to depth 2 (quick) / 3 (thorough) of RenameModel, RenameAppLabel, RenameField, DeleteField, DeleteModel, DeleteApplication, AddField; after every transition no relation in the simulated signature may dangle or mention a renamed-away name, and every database foreign key must point at an existing table/column and validate.',
+   text='From every S2/S3 start (cross-model and cross-app FK/O2O/M2M, prefix model names, single-character app label) all sequences up to depth 2 (quick) / 3 (thorough) of RenameModel, RenameAppLabel, RenameField (incl. explicit primary keys), DeleteField, DeleteModel, DeleteApplication, AddField (incl. new FK/M2M); after every transition no relation in the simulated signature may dangle or mention a renamed-away name, and every database foreign key must point at an existing table/column and validate.',
    note='Crashes/SQL errors of a transition are C01 business. Rows (R2) are present so foreign_key_check is meaningful.',
    design='3/C11'),
  'C12': dict(level='exploration', technique='exhaustive perturbation enumeration (every operator x every position of every generated evolution) through the real evolve command, judged by the reference semantics',
@@ -31,22 +31,22 @@ CHECKS = {
    note='Equivalence of a perturbed evolution is decided by the reference semantics (field/model order ignored), never by the implementation.',
    design='3/C12'),
  'C13': dict(level='exploration', technique='exhaustive enumeration of hinted evolutions (C05 pair space through the real evolve --hint pipeline, plus constructed mutations over the value grammar); render -> exec -> compare',
-   text='Every hinted evolution text produced by Evolver(hinted=True)/get_evolution_content() for the C05 pair space and for constructed mutations over the value grammar is exec-ed in a fresh namespace like an evolution module; the loaded MUTATIONS must equal the hinted ones (str), simulate to the same signature and generate the same SQL; texts with a user-input placeholder must carry it and refuse to load or run.',
+   text='Every hinted evolution text produced by Evolver(hinted=True)/get_evolution_content() for the C05 pair space and for constructed mutations over the value grammar (Q trees with literal, F() and Value() operands, expressions, every Index/constraint option) is exec-ed in a fresh namespace like an evolution module; the loaded MUTATIONS must equal the hinted ones (str), simulate to the same signature and generate the same SQL; texts with a user-input placeholder must carry it and refuse to load or run.',
    note='Hints that cannot be computed or applied at all belong to C05/C01.',
    design='3/C13'),
  'C14': dict(level='model_checking', technique='preview-vs-execution differential on every pending upgrade; exhaustive exploration of set-iteration-order choices (controlled scheduler for `set`); finite PYTHONHASHSEED sweep in separate interpreters as capture check',
-   text='For every pending upgrade of the generated histories (plus Meta-rich histories with 3-4 together/index entries) the `evolve --sql` text must equal, statement by statement with parameters substituted, what `evolve --execute` issues between applying_evolution and applied_evolution from the same snapshot; the name `set` is shadowed in the SQL/hint generating modules by an order-controlled subclass and every single iteration-order deviation (all permutations for sets <= 4; pairs of deviations in thorough) must leave preview and hint text unchanged; the same cases are digested under 4 (quick) / 16 (thorough) hash seeds in separate interpreters.',
+   text='For every pending upgrade of the generated histories (plus Meta-rich histories with 3-4 together/index entries, histories with raw SQL mutations, and two-app histories in which the first app produces no SQL) the `evolve --sql` text must equal, statement by statement with parameters substituted, what `evolve --execute` issues between applying_evolution and applied_evolution from the same snapshot; the name `set` is shadowed in the SQL/hint generating modules by an order-controlled subclass and every single iteration-order deviation (all permutations for sets <= 4; pairs of deviations in thorough) must leave preview and hint text unchanged; the same cases are digested under 4 (quick) / 16 (thorough) hash seeds in separate interpreters.',
    note='Set literals/comprehensions and dict order are only covered by the finite seed sweep; a seed difference that the order exploration cannot explain is listed in the evidence.',
    design='3/C14'),
  'C15': dict(level='exploration', technique='exhaustive enumeration of app-removal configurations through the real evolve --purge command and Evolver API, plus BFS over DeleteModel/DeleteApplication sequences, with table-level non-interference oracle',
-   text='Two generated projects (3 and 4 apps with cross-app FK/M2M, self M2M, custom db_table names that are prefixes of each other) x every dependency-closed non-empty subset of apps removed from the installed set x {--purge, no purge} x {evolve command, Evolver.queue_purge_old_apps}: the dropped tables must be exactly the tables owned by the removed apps incl. their M2M tables, every other table must be byte-identical (sqlite_master entries and rows), the stored signature must lose exactly those apps, and without --purge nothing may change; plus every DeleteModel/DeleteApplication sequence to depth 2/3 through the bare AppMutator under the C01 oracle.',
+   text='Two generated projects (3 and 4 apps with cross-app FK/M2M, self M2M, custom db_table names that are prefixes of each other) x every dependency-closed non-empty subset of apps removed from the installed set x {--purge, no purge} x {evolve command, Evolver.queue_purge_old_apps}: the dropped tables must be exactly the tables owned by the removed apps incl. their M2M tables, every other table must be byte-identical (sqlite_master entries and rows), the stored signature must lose exactly those apps, and without --purge nothing may change; a stale app whose models were all deleted before the purge must still lose its signature entry; plus every DeleteModel/DeleteApplication sequence to depth 2/3 through the bare AppMutator under the C01 oracle.',
    note='Only dependency-closed subsets can be removed from INSTALLED_APPS (Django itself would not start otherwise).',
    design='3/C15'),
  'C16': dict(level='exploration', technique='exhaustive enumeration of router configurations x evolutions x evolve orders on two real SQLite databases through Evolver(database_name=...)',
-   text='A three-model app under ALL 8 assignments of its models to the databases default/other (harness router answering allow_migrate and db_for_write), every evolution of an 8-letter alphabet up to length 1 (quick) / 2 (thorough) that names models on both sides, both evolve orders, evolutions discovered the normal way plus one run with in-memory evolutions: each database must hold exactly the routed models (schema equal to what Django creates for that subset), its stored signature must list exactly those models, the run must succeed, and the database not being evolved must be byte-identical before and after.',
+   text='A three-model app under ALL 8 assignments of its models to the databases default/other (harness router answering allow_migrate and db_for_write), every evolution of an 8-letter alphabet up to length 1 (quick) / 2 (thorough) that names models on both sides, both evolve orders, evolutions discovered the normal way plus one run with in-memory evolutions, a scenario with per-database SQL evolution files and a scenario evolve / flush / evolve again: each database must hold exactly the routed models (schema equal to what Django creates for that subset), its stored signature must list exactly those models, the run must succeed, and the database not being evolved must be byte-identical before and after.',
    note='Models on different databases are unrelated (no cross-database FKs).',
    design='3/C16'),
- 'C17': dict(level='fault_enumeration', technique='acceptor over the interleaved signal/statement log of every fault-free and every faulted run of the C07 enumeration plus no-op and two-app runs',
+ 'C17': dict(level='fault_enumeration', technique='acceptor over the interleaved signal/statement log of every fault-free and every faulted run of the C07 enumeration (incl. faults in the bookkeeping statements) plus no-op, two-app, split-batch and migration hand-over runs',
    text='A small acceptor checks every run: evolving at most once and before any change; exactly one of evolved/evolving_failed, evolved only after the version row is saved and after the last change; applying_*/creating_models paired with their counterparts unless the run fails in between; every non-bookkeeping effect statement lies between a pair; _evolve_lock restored.',
    note='Deferred index SQL for new models and PRAGMA statements are not attributed to a signal pair; migration signals are exercised by C10.',
    design='3/C17'),
@@ -56,22 +56,22 @@ CHECKS = {
    design='3/C18'),
  'C04': dict(level='model_checking', technique='explicit-state exploration of upgrade-run histories (memoised on (code version, canonical database state)) through the real Evolver and the evolve/migrate commands; differential convergence oracle',
    text='For every generated history V0..Vn (n=2 quick, 3 thorough; every evolution in the app SEQUENCE, discovered the normal way) and every start point, the database is installed fresh through the real Evolver and then upgraded along EVERY chain of later versions (direct and stepwise are the extremes); all final states must have the schema of a fresh install, equal rows per start point, exactly the SEQUENCE recorded once, a stored signature with empty Diff against the current models, and a further run must report nothing to do and execute no SQL.',
-   note='Histories whose single steps are not C01-clean, and jumps whose batched AppMutator run differs from stepwise (C03), are outside the domain and counted. D3/D4 run on a deterministic stride of the histories, D2 on all.',
+   note='Histories whose single steps are not C01-clean are outside the domain and counted. A jump whose batched AppMutator run differs from the stepwise run is left out only when the C03 oracle, run on that very path, explains the divergence by recorded C03 findings alone; any other divergence stays in and is judged here. D3/D4 run on a deterministic stride of the histories, D2 on all.',
    design='3/C04'),
  'C05': dict(level='exploration', technique='exhaustive enumeration of ordered signature pairs over the field/Meta product space; diff -> hint -> simulate closure and eq-vs-diff agreement on the real code',
    text='All ordered pairs of the single-field menu (22 x 22: every tracked attribute alone and combined, type changes, relation re-targeting, field added/removed), of the Meta menu (19 x 19 incl. reordered lists), every S1/S2/S3 start against each depth-1 successor both ways, and representation-only variants; for each pair the hinted evolution is simulated on the old signature and must leave an empty Diff; Diff(s,s)/Diff(s,clone) empty; == agrees with Diff emptiness.',
    note='Placeholders needing user input are replaced by a domain value before simulating; model additions are created by the evolver, not hinted.',
    design='3/C05'),
- 'C06': dict(level='exploration', technique='exhaustive enumeration of a bounded signature value grammar through three storage channels (deserialize(serialize()), JSON OrderedDict path, real Version save/reload) plus v2->v1->v2',
+ 'C06': dict(level='exploration', technique='exhaustive enumeration of a bounded signature value grammar through the storage channels (deserialize(serialize()), JSON OrderedDict path, real Version save/reload, v2->v1->v2, and a real pickled version-1 row in django_project_version)',
    text='Every signature of the bounded grammar (Q trees to depth 2/3 with AND/OR/XOR/negation/single-child nesting, F/Value/function/combined expressions, every Index and constraint option, Deferrable enums, special strings, None/False/0, relation targets, upgrade method x applied migrations, tuple vs list Meta) and of every generated model set must come back ==, Diff-empty both ways and byte-identical when re-serialised.',
    note='Equality is ProjectSignature.__eq__; difference is Diff(...).is_empty(ignore_apps=False) both ways.',
    design='3/C06'),
  'C07': dict(level='fault_enumeration', technique='exhaustive fault injection: every generated single-batch evolution x every effect-statement index, on the real Evolver pipeline against SQLite, with snapshot comparison and retry',
-   text='Every reference-valid evolution of the stated alphabets and depths (optionally with a brand-new model so that model creation and deferred SQL are part of the run) is executed through Evolver+EvolveAppTask; then for EVERY effect statement k of the traced run an OperationalError is injected at k; afterwards schema, rows, recorded evolutions, stored signature and migrations must equal the pre-run state, the error must be an EvolutionExecutionError naming statement k, and a fault-free retry must reach the uninterrupted result.',
+   text='Every reference-valid evolution of the stated alphabets and depths (optionally with a brand-new model so that model creation and deferred SQL are part of the run, with a purge of a stale app queued in the same run, and on the second database) is executed through Evolver+EvolveAppTask(+PurgeAppTask); then for EVERY effect statement k of the traced run an OperationalError is injected at k; afterwards schema, rows, recorded evolutions, stored signature and migrations must equal the pre-run state, the error must be an EvolutionExecutionError naming statement k, and a fault-free retry must reach the uninterrupted result.',
    note='Faults are raised from connection.execute_wrapper; statements on the bookkeeping tables, django_content_type and PRAGMA foreign_keys are not fault targets (outside the batch). Retry runs in the same process.',
    design='3/C07'),
  'C08': dict(level='model_checking', technique='explicit-state BFS over upgrade-run event histories on the real Evolver and mark/wipe commands, against a reference bookkeeping model',
-   text='Breadth-first search to depth 4 (quick) / 6 (thorough) over events {install code version, upgrade all apps, upgrade one app only, upgrade with a fault at the first/last statement, mark-evolution-applied, wipe-evolution} on two-app projects that share evolution labels; after every event the recorded (app,label) rows must equal the reference set without duplicates, new rows must hang on the version saved by that run, nothing is recorded by a failed run, a fresh app executes none of its sequence, and no label executes twice since it was last wiped.',
+   text='Breadth-first search to depth 4 (quick) / 6 (thorough) over events {install code version, upgrade all apps, upgrade one app only, upgrade with purge, upgrade with a fault at the first/last statement, mark-evolution-applied, wipe-evolution} on two-app projects that share evolution labels; after every event the recorded (app,label) rows must equal the reference set without duplicates, new rows must hang on the version saved by that run, nothing is recorded by a failed run, a fresh app executes none of its sequence, and no label executes twice since it was last wiped.',
    note='Executions are counted per label since its last wipe. States reached through a violating event are not expanded.',
    design='3/C08'),
  'C09': dict(level='model_checking', technique='exhaustive enumeration of all digraphs <=N nodes on the real DependencyGraph + exhaustive dependency configurations through the real Evolver',
